@@ -1,0 +1,17 @@
+//go:build verif
+
+package memory
+
+// Read-only accessors for verification; only built with -tags verif.
+
+// SP is the stack pointer.
+func (m *Type) SP() int { return m.sp }
+
+// FrameDepth is the number of active call frames.
+func (m *Type) FrameDepth() int { return len(m.fp) / 2 }
+
+// ClosureDepth is the number of frames on the closure stack.
+func (m *Type) ClosureDepth() int { return len(m.closure) }
+
+// StackLen is the allocated length of the value stack.
+func (m *Type) StackLen() int { return len(m.stack) }
